@@ -12,6 +12,10 @@
         (small model; the full one belongs to C12).
      C. The interleaving model of lockedWriteSyncer (Lock; wrapped call; Unlock) re-homed
         from DESIGN Appendix B, with the in-flight counter the harness sink keeps.
+     D. Handles: a lockedWriteSyncer as a reference to a lock cell (Lock on an already locked
+        syncer returns the same cell), handle graphs derived from one locked syncer by
+        Lock / AddSync / NewMultiWriteSyncer / CombineWriteSyncers, and a machine with any
+        number of mutexes on which threads call the sink through their handles.
    No proofs in this file. *)
 From Coq Require Import List ZArith Bool Lia.
 From Coq.Strings Require Import Byte.
@@ -386,6 +390,156 @@ Definition locked_prog (prog : list (list Z)) : nat -> list instr := fun t => co
 Definition unlocked_prog (prog : list (list Z)) : nat -> list instr := fun t => compile_unlocked (nth t prog []).
 Definition total_calls (prog : list (list Z)) : nat := fold_right (fun l a => length l + a) 0 prog.
 
+(* ================= D. handles: several references onto one sink ================= *)
+(* Section A gives a lockedWriteSyncer no identity, so it cannot say whether two values
+   obtained from Lock are the SAME wrapper (one mutex) or two wrappers around one sink (two
+   mutexes that do not exclude each other).  Here a lockedWriteSyncer carries the name [c]
+   of its mutex (a lock cell): two handles with the same [c] are the same pointer, and the
+   constructor functions allocate names. *)
+Inductive hobj :=
+| HSink                            (* the observed sink *)
+| HOther                           (* any other sink: a call through it never reaches the observed sink *)
+| HLocked (c : nat) (o : hobj)     (* &lockedWriteSyncer{ws: o} whose mutex is cell number c *)
+| HMulti (l : list hobj).          (* multiWriteSyncer(l) *)
+
+(* [Reuse] is zap's Lock:
+     if _, ok := ws.( *lockedWriteSyncer); ok { return ws }      -- the same pointer, the same cell
+     return &lockedWriteSyncer{ws: ws}                            -- a new wrapper, a new mutex
+   [fresh] is the next unused cell number.  [Rewrap] is NOT zap's code: it is the variant that
+   strips an existing lock layer and wraps the inner syncer in a new lockedWriteSyncer; it is
+   kept only so that the loss of exclusion between handles is expressible (…_rewrap_refuted). *)
+Inductive lockmode := Reuse | Rewrap.
+Definition h_lock (m : lockmode) (fresh : nat) (o : hobj) : hobj * nat :=
+  match o, m with
+  | HLocked _ _, Reuse => (o, fresh)
+  | HLocked _ o', Rewrap => (HLocked fresh o', S fresh)
+  | _, _ => (HLocked fresh o, S fresh)
+  end.
+Definition h_add_sync (o : hobj) : hobj := o.          (* every hobj is a WriteSyncer already *)
+Definition h_new_multi (l : list hobj) : hobj := match l with [o] => o | _ => HMulti l end.
+Definition h_combine (m : lockmode) (fresh : nat) (l : list hobj) : hobj * nat :=
+  match l with [] => (HOther, fresh) (* AddSync(io.Discard) *) | _ => h_lock m fresh (h_new_multi l) end.
+
+(* a handle graph: handle 0 is a locked syncer over the sink (built by zap's own constructors,
+   [root]); every further handle is derived from EARLIER handles (numbers; a negative number
+   is some other sink) by one constructor call.  The raw sink is not a handle. *)
+Inductive dstep := DLock (i : Z) | DAddSync (i : Z) | DMulti (a : list Z) | DCombine (a : list Z).
+Definition pick (hs : list hobj) (i : Z) : hobj := if (i <? 0)%Z then HOther else nth (Z.to_nat i) hs HOther.
+Definition d_apply (m : lockmode) (st : list hobj * nat) (d : dstep) : list hobj * nat :=
+  let '(o, f) := match d with
+                 | DLock i => h_lock m (snd st) (pick (fst st) i)
+                 | DAddSync i => (h_add_sync (pick (fst st) i), snd st)
+                 | DMulti a => (h_new_multi (map (pick (fst st)) a), snd st)
+                 | DCombine a => h_combine m (snd st) (map (pick (fst st)) a)
+                 end in
+  (fst st ++ [o], f).
+(* root kinds: 0 Lock(sink); 1 CombineWriteSyncers(sink); 2 CombineWriteSyncers(sink, other);
+   3 Lock(AddSync(sink)); 4 Lock(NewMultiWriteSyncer(other, sink)); 5 zap.Open(<url of the sink>)
+   = CombineWriteSyncers(sink) *)
+Definition root (m : lockmode) (r : Z) : hobj * nat :=
+  if (r =? 2)%Z then h_combine m 0 [HSink; HOther]
+  else if (r =? 3)%Z then h_lock m 0 (h_add_sync HSink)
+  else if (r =? 4)%Z then h_lock m 0 (h_new_multi [HOther; HSink])
+  else if (r =? 0)%Z then h_lock m 0 HSink
+  else h_combine m 0 [HSink].
+Definition graph (m : lockmode) (r : Z) (ds : list dstep) : list hobj :=
+  fst (fold_left (d_apply m) ds ([fst (root m r)], snd (root m r))).
+
+(* thread code of one call (k = 0 Write, 1 Sync) through an object: every lockedWriteSyncer on
+   the way locks its own mutex around the wrapped call; a multi-syncer calls its sinks in order *)
+Inductive ginstr := JLock (c : nat) | JUnlock (c : nat) | JBegin (k : Z) | JEnd (k : Z).
+Fixpoint code_of (k : Z) (o : hobj) : list ginstr :=
+  match o with
+  | HSink => [JBegin k; JEnd k]
+  | HOther => []
+  | HLocked c o' => JLock c :: code_of k o' ++ [JUnlock c]
+  | HMulti l => concat (map (code_of k) l)
+  end.
+(* a thread performs calls (handle number, kind) one after the other *)
+Definition thread_code (hs : list hobj) (calls : list (Z * Z)) : list ginstr :=
+  concat (map (fun hk => code_of (snd hk) (pick hs (fst hk))) calls).
+
+(* the machine: any number of mutexes.  [gheld]: the (cell, thread) pairs currently held;
+   [gcur]/[gmax]: calls inside the sink / their maximum, as the harness sink counts them *)
+Record gstate := { gpcs : list nat; gheld : list (nat * nat); gcur : nat; gmax : nat }.
+Fixpoint holder_of (h : list (nat * nat)) (c : nat) : option nat :=
+  match h with [] => None | (c', t) :: r => if c' =? c then Some t else holder_of r c end.
+Fixpoint release (c : nat) (h : list (nat * nat)) : list (nat * nat) :=
+  match h with [] => [] | (c', t) :: r => if c' =? c then release c r else (c', t) :: release c r end.
+Fixpoint set_nth (t v : nat) (l : list nat) : list nat :=
+  match t, l with
+  | 0, [] => [v]
+  | 0, _ :: r => v :: r
+  | S n, [] => 0 :: set_nth n v []
+  | S n, x :: r => x :: set_nth n v r
+  end.
+Definition gpc (s : gstate) (t : nat) : nat := nth t (gpcs s) 0.
+Definition gnext (codes : nat -> list ginstr) (s : gstate) (t : nat) : option ginstr :=
+  nth_error (codes t) (gpc s t).
+Definition gadv (s : gstate) (t : nat) : list nat := set_nth t (S (gpc s t)) (gpcs s).
+Definition gstep (codes : nat -> list ginstr) (s : gstate) (t : nat) : gstate :=
+  match gnext codes s t with
+  | Some (JLock c) =>
+      match holder_of (gheld s) c with
+      | None => {| gpcs := gadv s t; gheld := (c, t) :: gheld s; gcur := gcur s; gmax := gmax s |}
+      | Some _ => s                                            (* blocked: the turn is a no-op *)
+      end
+  | Some (JUnlock c) => {| gpcs := gadv s t; gheld := release c (gheld s); gcur := gcur s; gmax := gmax s |}
+  | Some (JBegin _) => {| gpcs := gadv s t; gheld := gheld s; gcur := S (gcur s);
+                          gmax := Nat.max (gmax s) (S (gcur s)) |}
+  | Some (JEnd _) => {| gpcs := gadv s t; gheld := gheld s; gcur := pred (gcur s); gmax := gmax s |}
+  | None => s
+  end.
+Definition ginit : gstate := {| gpcs := []; gheld := []; gcur := 0; gmax := 0 |}.
+Definition grun (codes : nat -> list ginstr) (sched : list nat) : gstate := fold_left (gstep codes) sched ginit.
+
+Definition g_in_call (codes : nat -> list ginstr) (s : gstate) (t : nat) : Prop :=
+  exists k, gnext codes s t = Some (JEnd k).
+Definition g_overlap (codes : nat -> list ginstr) (s : gstate) : Prop :=
+  exists t1 t2, t1 <> t2 /\ g_in_call codes s t1 /\ g_in_call codes s t2.
+
+(* programs over a handle graph: thread t performs the calls [nth t prog []] *)
+Definition handle_codes (hs : list hobj) (prog : list (list (Z * Z))) : nat -> list ginstr :=
+  fun t => nth t (map (thread_code hs) prog) [].
+Definition handle_prog (m : lockmode) (r : Z) (ds : list dstep) (prog : list (list (Z * Z))) : nat -> list ginstr :=
+  handle_codes (graph m r ds) prog.
+
+(* sink calls written in a piece of code *)
+Definition is_begin (i : ginstr) : bool := match i with JBegin _ => true | _ => false end.
+Definition count_begin (code : list ginstr) : nat := length (filter is_begin code).
+Definition prog_begins (hs : list hobj) (prog : list (list (Z * Z))) : nat :=
+  fold_right (fun calls a => count_begin (thread_code hs calls) + a) 0 prog.
+
+(* schedules the model is evaluated on.  [seq_pass]: every thread in turn gets as many turns
+   as its code is long; [completion]: one pass per thread.  [gate_sched]: thread 0 runs until
+   it is inside its first sink call and stays there while every other thread is given the
+   turns to run its whole code; then everything is completed -- the schedule the gated runs
+   of the harness enforce on the real code. *)
+Definition seq_pass (hs : list hobj) (prog : list (list (Z * Z))) (from : nat) : list nat :=
+  concat (map (fun t => repeat t (length (thread_code hs (nth t prog [])))) (seq from (length prog - from))).
+Definition completion (hs : list hobj) (prog : list (list (Z * Z))) : list nat :=
+  concat (repeat (seq_pass hs prog 0) (length prog)).
+Fixpoint first_end (code : list ginstr) : nat :=
+  match code with [] => 0 | JEnd _ :: _ => 0 | _ :: r => S (first_end r) end.
+Definition gate_sched (hs : list hobj) (prog : list (list (Z * Z))) : list nat :=
+  repeat 0 (first_end (thread_code hs (nth 0 prog []))) ++ seq_pass hs prog 1 ++ completion hs prog.
+
+(* ---------- specification side (no cells, no objects, no machine) ---------- *)
+(* how many times one call through handle number h reaches the sink, read off the derivation
+   program alone: the root reaches it once, Lock and AddSync relay, a multi-syncer calls every
+   one of its sinks *)
+Definition r_pick (rs : list nat) (i : Z) : nat := if (i <? 0)%Z then 0 else nth (Z.to_nat i) rs 0.
+Definition r_apply (rs : list nat) (d : dstep) : list nat :=
+  rs ++ [match d with
+         | DLock i => r_pick rs i
+         | DAddSync i => r_pick rs i
+         | DMulti a => fold_right Nat.add 0 (map (r_pick rs) a)
+         | DCombine a => fold_right Nat.add 0 (map (r_pick rs) a)
+         end].
+Definition reaches (ds : list dstep) : list nat := fold_left r_apply ds [1].
+Definition total_reach (ds : list dstep) (prog : list (list (Z * Z))) : nat :=
+  fold_right (fun calls a => fold_right (fun hk b => r_pick (reaches ds) (fst hk) + b) 0 calls + a) 0 prog.
+
 Local Open Scope Z_scope.
 
 (* ================= wire ================= *)
@@ -397,7 +551,15 @@ Local Open Scope Z_scope.
    (2 2 en (#p ..))                   zapio.Writer;     obs ((n..) (err..))
    (2 3 size (op..))                  BufferedWriteSyncer, op = (0 #p) | (1) Sync | (2) Stop;
                                       obs ((n..) (err..) (sink-event..)), sink-event = #bytes | 0 (Sync)
-   (3 ((k..)..) (tid..))              goroutines hammering Lock(sink); obs (max-in-flight completed) *)
+   (3 ((k..)..) (tid..))              goroutines hammering Lock(sink); obs (max-in-flight completed)
+   (4 mode root (step..) (((h k)..)..) (tid..))
+                                      several handles onto one sink: handle 0 = root kind [root], every step
+                                      derives one more handle: (0 i) Lock | (1 i) AddSync | (2 (i..)) NewMultiWriteSyncer
+                                      | (3 (i..)) CombineWriteSyncers (i: an earlier handle, -1: some other sink);
+                                      thread t performs the calls (handle kind); mode 0: goroutines run freely
+                                      (the model is evaluated on the schedule (tid..) followed by a completion),
+                                      mode 1: thread 0 is parked inside the sink while every other thread calls;
+                                      obs (max-in-flight completed-sink-calls) *)
 Definition dec_zs (s : sx) : list Z := map sx_z (sx_l s).
 
 Fixpoint dec_expr (s : sx) : expr :=
@@ -419,6 +581,15 @@ Definition dec_bop (s : sx) : bop :=
 Definition enc_sev (e : sev) : sx := match e with SW b => SB b | SS => SZ 0 end.
 Definition dec_prog (s : sx) : list (list Z) := map dec_zs (sx_l s).
 Definition dec_sched (s : sx) : list nat := map sx_n (sx_l s).
+Definition dec_dstep (s : sx) : dstep :=
+  match sx_z (sx_nth s 0) with
+  | 0 => DLock (sx_z (sx_nth s 1))
+  | 1 => DAddSync (sx_z (sx_nth s 1))
+  | 2 => DMulti (dec_zs (sx_nth s 1))
+  | _ => DCombine (dec_zs (sx_nth s 1))
+  end.
+Definition dec_calls (s : sx) : list (Z * Z) := map (fun c => (sx_z (sx_nth c 0), sx_z (sx_nth c 1))) (sx_l s).
+Definition dec_hprog (s : sx) : list (list (Z * Z)) := map dec_calls (sx_l s).
 
 Definition model_comb (e : expr) (p : bytes) : sx :=
   let w := eval e in
@@ -445,7 +616,19 @@ Definition model_lock (i : sx) : sx :=
   let s := run (locked_prog (dec_prog (sx_nth i 1))) (dec_sched (sx_nth i 2)) in
   SL [of_nat (maxc s); of_nat (fin s)].
 
+Definition model_handles (i : sx) : sx :=
+  let r := sx_z (sx_nth i 2) in
+  let ds := map dec_dstep (sx_l (sx_nth i 3)) in
+  let prog := dec_hprog (sx_nth i 4) in
+  let hs := graph Reuse r ds in
+  let sched := if wkind i =? 1 then gate_sched hs prog
+               else dec_sched (sx_nth i 5) ++ completion hs prog in
+  let cl := map (thread_code hs) prog in            (* = handle_codes hs prog, compiled once *)
+  let s := grun (fun t => nth t cl []) sched in
+  SL [of_nat (gmax s); of_nat (prog_begins hs prog)].
+
 Definition model (i : sx) : sx :=
+  if kind i =? 4 then model_handles i else
   if kind i =? 1 then model_comb (dec_expr (sx_nth i 1)) (sx_b (sx_nth i 2))
   else if kind i =? 2 then
     (if wkind i =? 0 then model_stdlog i
@@ -507,7 +690,14 @@ Definition spec_lock (i o : sx) : bool :=
   (sx_z (sx_nth o 0) <=? 1) && (0 <=? sx_z (sx_nth o 0)) &&
   sx_eqb (sx_nth o 1) (of_nat (total_calls (dec_prog (sx_nth i 1)))).
 
+(* never two calls inside the sink, through whatever handles they came; every call made
+   through a handle reached the sink as often as the derivation of the handle says *)
+Definition spec_handles (i o : sx) : bool :=
+  (sx_z (sx_nth o 0) <=? 1) && (0 <=? sx_z (sx_nth o 0)) &&
+  sx_eqb (sx_nth o 1) (of_nat (total_reach (map dec_dstep (sx_l (sx_nth i 3))) (dec_hprog (sx_nth i 4)))).
+
 Definition spec (i o : sx) : bool :=
+  if kind i =? 4 then spec_handles i o else
   if kind i =? 1 then spec_comb (dec_expr (sx_nth i 1)) (sx_b (sx_nth i 2)) o
   else if kind i =? 2 then
     (if wkind i =? 0 then spec_stdlog i o
@@ -529,6 +719,7 @@ Definition wf_lock (i : sx) : bool :=
   (fin (run (locked_prog (dec_prog (sx_nth i 1))) (dec_sched (sx_nth i 2))) =?
    total_calls (dec_prog (sx_nth i 1)))%nat.
 Definition wf (i : sx) : bool :=
+  if kind i =? 4 then true else
   if kind i =? 1 then wf_comb i
   else if kind i =? 2 then
     (if wkind i =? 0 then wf_stdlog i
